@@ -24,4 +24,4 @@ m['check_result']={"quick_check_exit":int(rc),"detected":int(rc)==1,"first_viola
 json.dump(m,open(p,'w'),indent=1)
 PY
   git -C /repo worktree remove --force $wt; rm -rf /tmp/sm/gen-$s
-done | tee /verif/seeded/RESULTS.tsv
+done | tee /tmp/sm/results-last.tsv
